@@ -83,6 +83,10 @@ func (c *Ctx) expectNF(f *FC, rule, name string, accept []string, why string) bo
 		return false
 	}
 	ok := false
+	nf = canonDiag(nf)
+	for i := range accept {
+		accept[i] = canonDiag(accept[i])
+	}
 	for _, a := range accept {
 		if specRegexp(a).MatchString(nf) {
 			ok = true
@@ -91,7 +95,7 @@ func (c *Ctx) expectNF(f *FC, rule, name string, accept []string, why string) bo
 	if !ok {
 		if nf2, helpers := f.nfInliningNewHelpers(fn, false); len(helpers) > 0 {
 			for _, a := range accept {
-				if specRegexp(a).MatchString(nf2) {
+				if specRegexp(a).MatchString(canonDiag(nf2)) {
 					c.R.OK(rule, name, "closed-form", c.Pos(f.M.Fset, fn.Decl.Pos()), why+" (after inlining the helper(s) added since the review: "+strings.Join(helpers, ", ")+"): "+nf2)
 					return true
 				}
